@@ -282,4 +282,62 @@ def run(ctx):
                   instance="ModuleTrie { submodules: BTreeMap, types: Vec }")
     else:
         ctx.violation("R20.5", "conjure_codegen", "anchor|module-trie", "module tree type (fields submodules/types) not found")
+    # ------------------------------------------------------------ R20.6 the CLI's flag forms mean what the library options mean
+    # bare `--flag` = true (default_missing_value), flag absent = the library's default for that option (default_value)
+    cfg_new = [b for b in cg.bodies if b.kind == "assoc_fn" and b.name == "new" and (ty_adt(b.self_ty) or "") == "conjure_codegen::Config"]
+    lib_defaults = {}
+    if len(cfg_new) == 1:
+        a_ = cg.adts.get("conjure_codegen::Config")
+        for bb, j, s_ in cfg_new[0].stmts():
+            if s_["r"].get("agg") == "adt" and s_["r"].get("adt") == "conjure_codegen::Config" and a_:
+                for f_, o_ in zip(a_["variants"][0]["fields"], s_["r"]["ops"]):
+                    k_ = dt.resolve_const(cfg_new[0], o_)
+                    if k_ is not None and "bool" in k_:
+                        lib_defaults[f_["name"]] = bool(k_["bool"])
+    aug = [b for b in cr.bodies if b.name in ("augment_args", "augment_args_for_update") and (b.trait or "").endswith("::Args")]
+    nflag = 0
+    for b in aug:
+        trc = Tracer(b, through_calls=True)
+        for bb, t in b.calls():
+            if t["call"]["name"] not in ("default_missing_value", "default_value") or "clap" not in t["call"]["def"]:
+                continue
+            val = (dt.resolve_const(b, t["args"][1]) or {}).get("str")
+            ids = set()
+            for s_ in trc.sources(t["args"][0]):
+                while s_[0] == "field":
+                    s_ = s_[1]
+                if s_[0] == "call" and b.blocks[s_[1]]["t"]["call"]["name"] == "new" and "Arg" in b.blocks[s_[1]]["t"]["call"]["def"]:
+                    k_ = dt.resolve_const(b, b.blocks[s_[1]]["t"]["args"][0])
+                    if k_ and "str" in k_:
+                        ids.add(k_["str"])
+            flag = next(iter(ids)) if len(ids) == 1 else None
+            nflag += 1
+            if t["call"]["name"] == "default_missing_value":
+                ctx.check(val == "true", "R20.6", b.loc(t["ln"]), f"{b.name}|{flag}|bare-flag", f"CLI flag `{flag}` given without a value means {val!r}; the bare flag must mean true (the library call it stands for is .{flag}(true))",
+                          instance=f"--{flag} (bare) = true")
+            elif flag in lib_defaults:
+                ctx.check(val == str(lib_defaults[flag]).lower(), "R20.6", b.loc(t["ln"]), f"{b.name}|{flag}|absent-flag", f"CLI flag `{flag}` defaults to {val!r} when absent; the library default (Config::new) is {lib_defaults[flag]}",
+                          instance=f"--{flag} absent = {lib_defaults[flag]} (Config::new)")
+    ctx.floor("R20.6", "clap default / missing-value settings of the CLI flags", nflag, 2)
+    # ------------------------------------------------------------ R20.7 the library's option setters are independent: each writes
+    # its own field(s) only, so the result does not depend on the order in which a caller (the CLI or a build script) applies them
+    writes_by = {}
+    for b in cg.bodies:
+        if b.kind != "assoc_fn" or (ty_adt(b.self_ty) or "") != "conjure_codegen::Config" or b.d.get("vis") != "pub" or b.trait:
+            continue
+        if "mut" not in json.dumps(b.local_ty(1) or {}) or ty_adt(strip_refs(b.local_ty(0) or {})) != "conjure_codegen::Config":
+            continue
+        ws = set()
+        for bb, j, s_ in b.stmts():
+            d_ = s_["d"]
+            if not isinstance(d_, int) and d_["l"] == 1:
+                for e in d_["p"]:
+                    if isinstance(e, dict) and "f" in e and e.get("n"):
+                        ws.add(e["n"])
+                        break
+        writes_by[b.name] = ws
+    clash = sorted((a1, a2, sorted(writes_by[a1] & writes_by[a2])) for a1 in writes_by for a2 in writes_by if a1 < a2 and writes_by[a1] & writes_by[a2])
+    ctx.check(not clash, "R20.7", "conjure-codegen/src/lib.rs", "config|setters-independent", f"Config setters write overlapping fields {clash}: the generated output then depends on the order in which equivalent options are applied (library caller vs CLI)",
+              instance=f"{len(writes_by)} Config setters write pairwise disjoint fields")
+    ctx.floor("R20.7", "Config option setters", len(writes_by), 3)
     # (the sortedness of generated safe_args is a C17 clause: IR order would be just as deterministic)
